@@ -105,10 +105,20 @@ def opNew (legacy : Bool) (a : List String) : Option St × String :=
           else if src == "cur" || src == "file" || src == "bufrd" || src == "ffile-stream" then
             some (.stream { bytes := obj, pos := pos0, sched := [] })
           else if src.startsWith "chk:" then
-            match parseSched (src.drop 4).toString obj.length e (maxtc + 4) with
+            -- `chk:<sched>!<k>`: fault-injecting stream, see `faultK?` below
+            match parseSched (((src.drop 4).toString.splitOn "!").headD "") obj.length e (maxtc + 4) with
             | some sc => some (.stream { bytes := obj, pos := pos0, sched := sc })
             | none => none
           else none
+        -- source fault: every `read` after `k` successful ones returns `Err`
+        let faultK? : Option (Option Nat) :=
+          match src.splitOn "!" with
+          | [_] => some none
+          | [_, k] => (k.toNat?).map some
+          | _ => none
+        match faultK? with
+        | none => (none, "bad-op")
+        | some faultK =>
         match supplied? with
         | none => (none, "bad-op")
         | some supplied =>
@@ -119,6 +129,10 @@ def opNew (legacy : Bool) (a : List String) : Option St × String :=
           match supplied with
           | .stream st => if legacy then some (.stream st) else objectSource (fun _ _ => te) cencN supplied
           | _ => objectSource (fun _ _ => te) cencN supplied
+        let source? : Option Source :=
+          match source?, faultK with
+          | some (.stream st), some k => some (.faulty st k)
+          | x, _ => x
         match source? with
         | none => (none, "ERR create")
         | some source =>
